@@ -9,6 +9,7 @@ import Req.C07.Interim
 import Req.C07.Token
 import Req.C07.H1Budget
 import Req.C07.H3Budget
+import Req.Client.Digest
 /-! Driver lanes of C07. -/
 namespace Req.Driver.L.C07
 open Req.Proto
@@ -234,7 +235,21 @@ def laneH3Fields : List String → String
     | none => "bad-op"
   | _ => "bad-op"
 
+/-- `c07digest <hex WWW-Authenticate value>` → `ok <realm> <nonce> <qop> <algorithm>` / `bad` / `charset` -/
+def laneDigest : List String → String
+  | [hex] =>
+    match decodeHex hex with
+    | some s =>
+      match Req.Digest.parseChallenge s with
+      | .ok c => "ok " ++ encodeHex c.realm ++ " " ++ encodeHex c.nonce ++ " " ++ encodeHex c.qop ++ " " ++ encodeHex c.algorithm
+      | .error .badChallenge => "bad"
+      | .error .charset => "charset"
+      | .error _ => "other-error"
+    | none => "bad-op"
+  | _ => "bad-op"
+
 def lanes : List (String × (List String → String)) := [
+  ("c07digest", laneDigest),
   ("c07altsvc", laneAltSvc),
   ("c07meta", laneMeta),
   ("c07opts", laneOpts),
